@@ -8,6 +8,7 @@ import (
 	"go/token"
 	"go/types"
 	"os"
+	"regexp"
 	"sort"
 	"strings"
 	"time"
@@ -264,10 +265,215 @@ func (p *Program) GlobalConst(g *ssa.Global) (string, bool) {
 				}
 			}
 		}
+		// tables built by a set-builder helper from constant lists (isSetBuilder): second pass,
+		// the lists may be other private tables
+		constOfG := func(v ssa.Value) (string, bool) {
+			var rec func(v ssa.Value) (string, bool)
+			rec = func(v ssa.Value) (string, bool) {
+				if ld, ok := v.(*ssa.UnOp); ok && ld.Op == token.MUL {
+					if gl, ok := ld.X.(*ssa.Global); ok {
+						if s, ok := p.globalRx[gl]; ok && strings.HasPrefix(s, "list‹") {
+							return "{" + strings.TrimSuffix(strings.TrimPrefix(s, "list‹"), "›") + "}", true
+						}
+					}
+					return "", false
+				}
+				if s, ok := constOf(v); ok {
+					return s, true
+				}
+				// a slice literal whose elements are loads of private lists
+				sl, ok := v.(*ssa.Slice)
+				if !ok || sl.Low != nil || sl.High != nil {
+					return "", false
+				}
+				al, ok := sl.X.(*ssa.Alloc)
+				if !ok || al.Referrers() == nil {
+					return "", false
+				}
+				var parts []string
+				for _, ref := range *al.Referrers() {
+					switch y := ref.(type) {
+					case *ssa.IndexAddr:
+						if y.Referrers() == nil {
+							return "", false
+						}
+						for _, r2 := range *y.Referrers() {
+							st, isSt := r2.(*ssa.Store)
+							if !isSt || st.Addr != ssa.Value(y) {
+								return "", false
+							}
+							e, ok := rec(st.Val)
+							if !ok {
+								return "", false
+							}
+							parts = append(parts, e)
+						}
+					case *ssa.Slice, *ssa.DebugRef:
+					default:
+						return "", false
+					}
+				}
+				return "{" + strings.Join(parts, ",") + "}", true
+			}
+			return rec(v)
+		}
+		for gl, sts := range stores {
+			if _, done := p.globalRx[gl]; done || len(sts) != 1 || mutated[gl] || gl.Object() == nil || gl.Object().Exported() || sts[0].Parent().Name() != "init" {
+				continue
+			}
+			call, ok := sts[0].Val.(*ssa.Call)
+			if !ok {
+				continue
+			}
+			callee := call.Call.StaticCallee()
+			if callee == nil || !IsModPkg(FnPkgPath(callee)) || !isSetBuilder(callee) {
+				continue
+			}
+			leaves := map[string]bool{}
+			ok = true
+			for _, a := range call.Call.Args {
+				s, isC := constOfG(a)
+				if !isC {
+					ok = false
+					break
+				}
+				for _, m := range reGoString.FindAllString(s, -1) {
+					leaves[m] = true
+				}
+			}
+			if !ok || len(leaves) == 0 {
+				continue
+			}
+			var ks []string
+			for k := range leaves {
+				ks = append(ks, k)
+			}
+			sort.Strings(ks)
+			p.globalRx[gl] = "set‹" + strings.Join(ks, ",") + "›"
+		}
 	}
 	s, ok := p.globalRx[g]
 	return s, ok
 }
+
+// isSetBuilder recognises, by shape, a module function that turns its (possibly nested, possibly
+// variadic) slice parameters into a set: one map is made and returned, the function consists of
+// complete range loops over the parameters and their elements and nothing else, and the only
+// map update inserts the innermost element with a constant value. For such a function the keys
+// of the result are exactly the leaf elements of the arguments - a summary read off the code,
+// not obtained by evaluating it.
+func isSetBuilder(fn *ssa.Function) bool {
+	if fn == nil || len(fn.Blocks) == 0 || fn.Signature.Results().Len() != 1 || fn.Recover != nil {
+		return false
+	}
+	if _, ok := fn.Signature.Results().At(0).Type().Underlying().(*types.Map); !ok {
+		return false
+	}
+	var mk *ssa.MakeMap
+	var updates []*ssa.MapUpdate
+	loopSrc := map[ssa.Value]ssa.Value{} // index value (i+1) -> the slice whose length bounds it
+	var idxAddrs []*ssa.IndexAddr
+	for _, b := range fn.Blocks {
+		for _, in := range b.Instrs {
+			switch x := in.(type) {
+			case *ssa.MakeMap:
+				if mk != nil {
+					return false
+				}
+				mk = x
+			case *ssa.MapUpdate:
+				updates = append(updates, x)
+			case *ssa.IndexAddr:
+				idxAddrs = append(idxAddrs, x)
+			case *ssa.If:
+				cmp, ok := x.Cond.(*ssa.BinOp)
+				if !ok || cmp.Op != token.LSS {
+					return false
+				}
+				inc, ok := cmp.X.(*ssa.BinOp)
+				if !ok || inc.Op != token.ADD {
+					return false
+				}
+				if one, ok := ConstInt(inc.Y); !ok || one != 1 {
+					return false
+				}
+				ph, ok := inc.X.(*ssa.Phi)
+				if !ok || len(ph.Edges) != 2 {
+					return false
+				}
+				start := false
+				for _, e := range ph.Edges {
+					if k, ok := ConstInt(e); ok && k == -1 {
+						start = true
+					} else if e != ssa.Value(inc) {
+						return false
+					}
+				}
+				ln, ok := cmp.Y.(*ssa.Call)
+				if !ok || !start {
+					return false
+				}
+				if bi, ok := ln.Call.Value.(*ssa.Builtin); !ok || bi.Name() != "len" {
+					return false
+				}
+				loopSrc[inc] = ln.Call.Args[0]
+			case *ssa.Call:
+				if bi, ok := x.Call.Value.(*ssa.Builtin); !ok || bi.Name() != "len" {
+					return false
+				}
+			case *ssa.Return:
+				if mk == nil || len(x.Results) != 1 || x.Results[0] != ssa.Value(mk) {
+					return false
+				}
+			case *ssa.Phi, *ssa.BinOp, *ssa.UnOp, *ssa.Jump, *ssa.DebugRef:
+			default:
+				return false
+			}
+		}
+	}
+	if mk == nil || len(updates) != 1 || len(loopSrc) == 0 {
+		return false
+	}
+	var elemOfParam func(v ssa.Value, depth int) bool
+	elemOfParam = func(v ssa.Value, depth int) bool {
+		if depth > 4 {
+			return false
+		}
+		if _, ok := v.(*ssa.Parameter); ok {
+			return true
+		}
+		ld, ok := v.(*ssa.UnOp)
+		if !ok || ld.Op != token.MUL {
+			return false
+		}
+		ia, ok := ld.X.(*ssa.IndexAddr)
+		return ok && loopSrc[ia.Index] == ia.X && elemOfParam(ia.X, depth+1)
+	}
+	for _, ia := range idxAddrs {
+		if loopSrc[ia.Index] != ia.X || !elemOfParam(ia.X, 0) {
+			return false
+		}
+	}
+	for _, src := range loopSrc {
+		if !elemOfParam(src, 0) {
+			return false
+		}
+	}
+	u := updates[0]
+	if u.Map != ssa.Value(mk) {
+		return false
+	}
+	if _, isParam := u.Key.(*ssa.Parameter); isParam || !elemOfParam(u.Key, 0) {
+		return false
+	}
+	if _, ok := u.Key.Type().Underlying().(*types.Basic); !ok {
+		return false
+	}
+	k, ok := u.Value.(*ssa.Const)
+	return ok && (k.Value == nil || k.Value.ExactString() == "true")
+}
+
+var reGoString = regexp.MustCompile(`"(?:[^"\\]|\\.)*"`)
 
 // RxName is the canonical rendering of a private package-level regexp with the given pattern.
 func RxName(pattern string) string { return "rx‹" + pattern + "›" }
